@@ -33,12 +33,22 @@ impl RequestHandler<PrepareRenameRequest> for PrepareRenameRequestHandler {
             let source_column = params.position.character as usize;
 
             if let Some(source_file) = codegen.tree().files.get(file_path) {
+                // The position is supplied by the client, so it may lie beyond the end of the file or of the line,
+                // or inside a multi-byte character
+                if source_line >= source_file.file.num_lines() {
+                    return Ok(None);
+                }
                 let line = source_file.file.source_line(source_line);
+                if !line.is_char_boundary(source_column) {
+                    return Ok(None);
+                }
 
                 // Try to find the start of identifier under the cursor
                 let start = line[..source_column]
-                    .rfind(|c: char| !c.is_alphanumeric() && c != '_')
-                    .map(|pos| pos + 1)
+                    .char_indices()
+                    .rev()
+                    .find(|(_, c)| !c.is_alphanumeric() && *c != '_')
+                    .map(|(pos, c)| pos + c.len_utf8())
                     .unwrap_or_default();
 
                 // Find the end of the identifier under the cursor
